@@ -65,7 +65,9 @@ static std::string eval(const std::vector<std::string> &line) {
     fbp.enable_backward() = true;
     fbp.get_use_refined_invariants() = (P.opt("refined", "0") == "1");
     fbp.get_max_refine_iterations() = (unsigned)std::stoul(P.opt("maxref", "5"));
-    FB.run(dom_t(), assumptions, nullptr, params, fbp);
+    long fb_entry = std::stol(P.opt("entry", "0"));
+    if (fb_entry != 0) FB.run(program::bname(fb_entry), dom_t(), assumptions, nullptr, params, fbp);
+    else FB.run(dom_t(), assumptions, nullptr, params, fbp);
     typedef crab::checker::intra_checker<fb_t> checker_t;
     typedef crab::checker::assert_property_checker<fb_t> assert_checker_t;
     typename checker_t::prop_checker_ptr prop(new assert_checker_t(1));
